@@ -260,8 +260,16 @@ def handle_error_items(tier):
             ("Solve/returns-HandleError-result", re.search(r"CVodeFree\(&cv_mem_\);\s*return flag;", s_) is not None),
             ("Solve/failure-logs-initial-state", re.search(r"if \(flag == NAUNET_FAIL\) \{.*?ab_init_\[i\]\);", s_, flags=re.S) is not None),
         ]
-        for nm, ok in checks:
-            items.append(item(f"{pre}/{nm}", "proved" if ok else "refuted", "", "text-scan"))
+        # the state vector has NEQUATIONS entries (species and, with thermal processes, the temperature): every loop of Solve and
+        # HandleError that saves, restores or logs it runs over all of them
+        for fname, body in (("Solve", s_), ("HandleError", cmini.strip(body_of(text, r"int\s+Naunet::HandleError")))):
+            loops = [(m.group(2), m.group(3)) for m in re.finditer(r"for\s*\(\s*int\s+(\w+)\s*=\s*0;\s*\1\s*<\s*(\w+);\s*\1\+\+\s*\)\s*\{([^{}]*)\}", body)
+                     if re.search(r"\bab(_init_|_tmp_)?\[", m.group(3))]
+            bad = [(b_, blk.strip()[:60]) for b_, blk in loops if b_ != "NEQUATIONS"]
+            checks.append((f"{fname}/state-copy-loops-cover-all-equations", bool(loops) and not bad, f"{bad}" if bad else f"{len(loops)} loops"))
+        for chk in checks:
+            nm, ok = chk[0], chk[1]
+            items.append(item(f"{pre}/{nm}", "proved" if ok else "refuted", chk[2] if len(chk) > 2 else "", "text-scan"))
         cf = cmini.strip(body_of(text, r"int\s+Naunet::CheckFlag"))
         ok = re.search(r"else if \(opt == 1\) \{\s*errflag = \(int \*\)flagvalue;\s*if \(\*errflag < 0\) \{.*?return NAUNET_FAIL;\s*\}\s*\}", cf, flags=re.S) is not None \
             and cf.strip().endswith("return NAUNET_SUCCESS;")
